@@ -9,6 +9,10 @@ use tracing::trace;
 pub(crate) struct MtuDiscovery {
     /// Detected MTU for the path
     current_mtu: u16,
+    /// The peer's `max_udp_payload_size` transport parameter, once received
+    ///
+    /// Kept here as well so that it still binds `current_mtu` when MTU discovery is disabled
+    peer_max_udp_payload_size: Option<u16>,
     /// The state of the MTU discovery, if enabled
     state: Option<EnabledMtuDiscovery>,
     /// The state of the black hole detector
@@ -51,6 +55,7 @@ impl MtuDiscovery {
     fn with_state(current_mtu: u16, min_mtu: u16, state: Option<EnabledMtuDiscovery>) -> Self {
         Self {
             current_mtu,
+            peer_max_udp_payload_size: None,
             state,
             black_hole_detector: BlackHoleDetector::new(min_mtu),
         }
@@ -61,6 +66,8 @@ impl MtuDiscovery {
         if let Some(state) = self.state.take() {
             self.state = Some(EnabledMtuDiscovery::new(state.config));
             self.on_peer_max_udp_payload_size_received(state.peer_max_udp_payload_size);
+        } else if let Some(peer_max_udp_payload_size) = self.peer_max_udp_payload_size {
+            self.current_mtu = self.current_mtu.min(peer_max_udp_payload_size);
         }
         self.black_hole_detector = BlackHoleDetector::new(min_mtu);
     }
@@ -81,6 +88,7 @@ impl MtuDiscovery {
     /// been received
     pub(crate) fn on_peer_max_udp_payload_size_received(&mut self, peer_max_udp_payload_size: u16) {
         self.current_mtu = self.current_mtu.min(peer_max_udp_payload_size);
+        self.peer_max_udp_payload_size = Some(peer_max_udp_payload_size);
 
         if let Some(state) = self.state.as_mut() {
             // It is possible for black hole detection to trigger before the connection has been
